@@ -160,7 +160,7 @@ func (in *interp) steps(steps []ast.Step, v jv.Val, sc *scope, pdepth int, direc
 			}
 		}
 		base, ok := in.source(s, v, sc, pdepth)
-		if in.failed() {
+		if in.failed() && !(s.Kind == ast.SFilter && ok) {
 			return jv.VNull()
 		}
 		if !ok {
@@ -251,18 +251,26 @@ func (in *interp) source(s ast.Step, v jv.Val, sc *scope, pdepth int) (jv.Val, b
 		}
 		in.ev.Filtered++
 		out := make([]jv.Val, 0, len(v.A))
+		// Every condition is evaluated in isolation: an implementation may
+		// apply the right-hand side to an element as soon as its condition
+		// holds, before it has looked at the conditions of later elements, so
+		// a fault in a later condition and a fault in the right-hand side of
+		// an earlier element can both be the one reported. The elements whose
+		// condition holds are returned even when another condition failed;
+		// the caller goes on to collect the faults of the right-hand side.
 		for _, e := range v.A {
 			e := e
-			c := in.move(func() jv.Val { return in.eval(s.Cond, e, sc, pdepth+1) })
-			if in.failed() {
-				continue
-			}
-			if c.Truthy() {
+			sel := false
+			in.iso(func() jv.Val {
+				c := in.move(func() jv.Val { return in.eval(s.Cond, e, sc, pdepth+1) })
+				if !in.failed() && c.Truthy() {
+					sel = true
+				}
+				return c
+			})
+			if sel {
 				out = append(out, e)
 			}
-		}
-		if in.failed() {
-			return jv.Val{}, false
 		}
 		return jv.Val{K: jv.Arr, A: out, Unordered: v.Unordered}, true
 	case ast.SSlice:
